@@ -17,6 +17,7 @@ CONSTANTS
   GuardPerClient = FALSE
   RearmPerRead = FALSE
   NoCloseOnError = FALSE
+  RearmAfterConnect = FALSE
 VIEW View
 CHECK_DEADLOCK FALSE
 INVARIANT NoBindError
